@@ -1,6 +1,7 @@
 """C02 - Parse is total and memory-safe on arbitrary bytes for every allocator kind."""
 from vlib import *
 import p_text as T
+import p_pda as P
 
 
 def run(tier):
@@ -11,11 +12,17 @@ def run(tier):
     builds = ["asan-avx2", "hook-avx2", "asanhook-avx2", "prod-sse"] if q else \
         ["asan-avx2", "hook-avx2", "asanhook-avx2", "prod-avx2", "asan-sse", "hook-sse", "asan-dyn", "hook-dyn"]
     pads = [0, 1, 33] if q else [0, 1, 31, 32, 33, 63, 64, 65]
+    # design level: node-stack safety of the I-model (np <= cap, End* moves only pushed cells, TearDown meets only
+    # constructed cells) for every input up to a bound, with the capacity floor lowered so that refusal is reached
+    r, bad = P.mc_refusal(ctx, 7 if q else 8)
+    if bad:
+        ctx.add_fail(dict(property="C02", kind="model", sig="model:ParserPDA", shape=dict(kind="model"), build="tlc",
+                          detail="ParserPDA StackSafe violated: " + r["out"][-1500:], case={}, replay=dict(harness="MC_ParserPDA")))
     corpora = T.corpora(ctx, "C02")
     total = 0
     for name, rows in corpora:
         fails, _, _ = T.replay_parse(ctx, rows, builds, pads, name=name)
-        T.record_fails(ctx, rows, fails, T.OWN["C02"], name)
+        T.record_fails(ctx, rows, fails, T.OWN["C02"] | {"model"}, name)
         total += len(rows)
         ctx.traces += len(rows) * len(builds)
         ctx.log(f"replayed corpus {name}: {len(rows)} texts x {len(pads)} alignments x {len(builds)} builds; "
